@@ -262,6 +262,7 @@ type Unit struct {
 	entryHeap     map[string]Term         // component -> entry constant
 	headers       map[*ssa.BasicBlock]int // loop header -> ordinal (1-based)
 	loopBlocks    map[*ssa.BasicBlock]map[*ssa.BasicBlock]bool
+	backCovers    map[*ssa.BasicBlock]int
 	params        map[string]Term // contract name -> term (params, results bound later)
 	logical       map[string]Term
 	notes         []string // assumptions / abstractions made while translating
@@ -650,13 +651,15 @@ func (u *Unit) closedEntryComp(comp, name string) {
 		}
 		return x
 	}
+	// only for objects that exist at entry: the entry constant also describes, at references allocated later
+	// by callees without heap effect (pure constructors), the objects those callees return
 	var ax string
 	if strings.HasSuffix(k, "/elem") {
 		r := "(select (select " + name + " b!c) i!c)"
-		ax = fmt.Sprintf("(forall ((b!c Int) (i!c Int)) (! (<= (own %s) alloc!0) :pattern (%s)))", val(r), r)
+		ax = fmt.Sprintf("(forall ((b!c Int) (i!c Int)) (! (=> (<= (own b!c) alloc!0) (<= (own %s) alloc!0)) :pattern (%s)))", val(r), r)
 	} else {
 		r := "(select " + name + " r!c)"
-		ax = fmt.Sprintf("(forall ((r!c Int)) (! (<= (own %s) alloc!0) :pattern (%s)))", val(r), r)
+		ax = fmt.Sprintf("(forall ((r!c Int)) (! (=> (<= (own r!c) alloc!0) (<= (own %s) alloc!0)) :pattern (%s)))", val(r), r)
 	}
 	u.pre.axiomFor(name+" |"+name+")", ax)
 }
